@@ -73,6 +73,10 @@ def rule_prefix_default(rep: Report, repo: Repo, rule: str) -> None:
                 facts = guard_atoms(guards_of(fn, n, parents))
                 if (f"{pvar} is None", True) in facts or (f"{pvar} is not None", False) in facts:
                     ok = True
+                    extra = [t for t, pol in facts if "recursive" in t or "follow" in t or "auto_exclude" in t]
+                    rep.check(not extra, rule, "cminx:document", "the default prefix does not depend on other options",
+                              f"the directory name becomes the default prefix only when `{extra[0][:50] if extra else ''}`: a directory "
+                              f"documented otherwise gets no prefix", witness="cminx -o out dir   (no -r, no -p)")
     rep.check(lde is not None or ok, rule, "cminx:document", "default prefix = basename(normpath(<input as given>))",
               "the default prefix is not the input directory's name", witness="cminx -r path/to/tree")
     rep.check(ok, rule, "cminx:document", f"prefix defaulting: {val}", "an explicit prefix does not override the default (or vice versa)",
